@@ -26,12 +26,26 @@ from common import Coverage, tstr, tstrs, toptstr, tbool, VERIF
 ID = 'C18'
 MODULE = 'SshAudit.Props.C18'
 NAMESPACE = 'SshAudit.C18'
-THEOREMS = []
+THEOREMS = ['portText_showNat', 'parse_name', 'parse_name_port', 'parse_bare_v6', 'parse_bracket', 'parse_bracket_port', 'parse_forms',
+            'ipv6_two_colons', 'cmdline_port_default', 'cmdline_bad_target_port', 'cmdline_bad_option',
+            'ip_pref_partial', 'ip_order_lost', 'ip_order_lost_witness', 'ip_order_lost_dials_v4', 'family_single',
+            'family_order', 'family_order_single', 'resolveOrder_perm', 'first_only',
+            'label_spelled', 'label_matches', 'label_verbose_matches', 'label_json_matches', 'json_label_v6_not_reparsed',
+            'named_target_dialled', 'port_range_target', 'port_range_option', 'port_range_worker', 'resolve_port_in_range',
+            'file_targets_clean', 'file_targets_of_lines', 'targets_dialled']
 TECHNIQUE = ('Lean 4 theorems (induction over strings/lists, omega) about a hand-written model of target parsing, command-line handling, '
              'address-family ordering, dialling and labelling + differential correspondence with the Python code, unit-wise and on whole '
              'main() runs over an in-process fake network')
-LEVEL_TEXT = ''
-LEVEL_NOTE = ''
+LEVEL_TEXT = ('Proved for all strings, ports and resolver answers about the Lean model: every documented spelling (name, IPv4, bare IPv6, host:port, [IPv6], [IPv6]:port; '
+              'ports as any decimal text) parses to the host and port it denotes; with or without -p the command line yields that host and (explicit port, else -p, else 22); '
+              'a targets file written as indented/blank/CR-LF lines yields exactly its target texts; a run resolves exactly (host, port, family argument) and dials only the first '
+              'address of the family-ordered answer; no resolution ever carries a port outside 1..65535; the text labels are documented spellings of exactly (host, port). '
+              'The model is executed by a compiled driver and compared with the real functions unit-wise and with whole main() runs on an in-process fake network; an independent '
+              'oracle (generator ground truth + ipaddress) checks the same on the real code.')
+LEVEL_NOTE = ('Trusted: Lean kernel, the correspondence harness/generators/fakenet, the argv->argparse mapping, CPython built-ins (int, str.strip, re, readlines, ipaddress, sorted) '
+              'which are modelled and differential-tested, not verified. Finding D33 (proved as ip_order_lost / ip_order_lost_dials_v4): -64 (any -6 written before -4) is recorded as '
+              '[4, 6], so IPv4 is dialled first; ip_pref_partial covers every other flag combination. cmdline_port_default and file_targets_clean hold of the code after the D18/D19 repairs. '
+              'Label theorems for IPv6 hosts assume the host text has no brackets (true of every scope-free literal; a scope id may contain anything). Observation D30: JSON target of an IPv6 host is not re-parseable.')
 
 AF4, AF6 = int(socket.AF_INET), int(socket.AF_INET6)
 ANSI = re.compile(r'\x1b\[[0-9;]*m')
